@@ -1,152 +1,262 @@
 (* C19 — runs in one process are independent of each other.   CLAIM: PARTIAL.
    Model: theories/Isolation.v — the process-wide mutable state of Snowfakery ([proc]: unique-id
    context counter, the two date-parsing lru_caches, the memo tables of the scrambling masks,
-   the RowHistory context variable) and [run : proc -> env -> recipe -> proc * outcome]; the
-   clock and the plugin_options an embedding application passes are inputs ([env]).
-   Only statements here; proofs live in proofs/IsolationP.v.
+   the RowHistory context variable, the working directory, sys.path, HOME, the import cache of
+   local plugin modules, the application object of an application that reuses it) and
+   [run : proc -> env -> recipe -> proc * outcome], where a [recipe] is a whole job: the
+   operations of ONE iteration, the stopping criterion (iterations or target_number), the
+   continuation file and the directory of the recipe file; the model runs the iteration loop,
+   the end-of-iteration checks of the application (api.py) and the with-blocks (chdir,
+   plugin_path) itself.  The clock and the plugin_options an embedding application passes are
+   inputs ([env]).  Only statements here; proofs live in proofs/IsolationP.v.
 
    What is proved and what is by construction.  In the model every other piece of state
-   (IdManager, nicknames, variables, instance_states with the memoised plugin values, the
-   generators behind unique_id, parsed formulas) is created by [run] itself, so "ids start at 1,
-   no nickname / variable / memoised plugin value leaks" is true BY CONSTRUCTION of the model
-   (C19_ids_start_at_one states the id part).  The theorems say something real only about the
-   locations in [proc]: which of them a run reads, and that what it reads cannot carry
-   information from an earlier run (cache entries equal fresh parses; the context variable is
-   overwritten before it is read; the counter only grows).
+   (IdManager with last_used_ids AND start_ids, nicknames, variables, instance_states with the
+   memoised plugin values, the generators behind unique_id, parsed formulas) is created by [run]
+   itself - from the job's own continuation file when there is one - so "ids start at 1 / go on
+   from the run's own continuation file, no nickname / variable / memoised plugin value leaks" is
+   true BY CONSTRUCTION of the model (C19_ids_continue, C19_target_reached state the id part).
+   The theorems say something real only about the locations in [proc]: which of them a run
+   reads, that what it reads cannot carry information from an earlier run (cache entries equal
+   fresh parses; the context variable is overwritten before it is read; the counter only
+   grows; working directory and search path are put back on EVERY exit path of the with-blocks),
+   and hence that no history of runs changes the outcome of the next job
+   (C19_restoring_runs_independent in the abstract, C19_history_irrelevant for the model).
    That [proc] lists EVERY location that survives a run is not a theorem: harness/c19.py audits
-   it on every check run (fingerprints of all snowfakery.* module globals, class attributes,
-   function defaults, closure cells and lru_cache statistics before and after each run; a changed
-   location outside [proc] is reported as a disagreement with this model).
+   it on every check run (fingerprints of all snowfakery.* module globals, all live classes with
+   their class-level dicts / lists / sets, function defaults, closure cells, every lru_cache, the
+   context variables of the current context, cwd / sys.path / environ and curated Faker / jinja2
+   state before and after each run; a changed location outside [proc] is reported as a
+   disagreement with this model).
 
-   [parse_d], [parse_dt] (dateutil behind parse_date / parse_datetimespec) are arbitrary
-   functions of the key in every theorem; the clock is an input ([env]). *)
+   [parse_d], [parse_dt] (dateutil behind parse_date / parse_datetimespec), [read_file] (the
+   file system) and [load_plugin] (the import system) are arbitrary functions in every theorem;
+   the clock is an input ([env]). *)
 From Coq Require Import ZArith List.
 From SFV Require Import Base Isolation UniqueId.
 From SFV.P Require Import IsolationP.
 Import ListNotations. Open Scope Z_scope. Open Scope string_scope.
+Ltac conjs := cbv zeta; repeat match goal with |- _ /\ _ => split end.
 
-(* A cached parse equals a fresh parse, in every process state reachable by running any
-   recipes (failing ones included), for every key of both caches.  (Since fix fc3a5e8 the clock
-   keys "now" / "today", and since bfa3786 Faker's relative specs such as "-30d", never reach the
-   datetime cache: C19_clock_keys_not_cached, with is_clock_key = now | today | is_relative_spec.) *)
-Theorem C19_cache_coherent :
-  forall (parse_d parse_dt : key -> option Z) (h : list (env * recipe)) (k : key),
-    let p := after parse_d parse_dt h in
-    snd (lru_call date_cache_size parse_d (p_dates p) k) = parse_d k /\
-    snd (lru_call date_cache_size parse_dt (p_dts p) k) = parse_dt k.
-Proof. exact cache_coherent. Qed.
+Section Statements.
+  Variable parse_d parse_dt : key -> option Z.
+  Variable read_file : string -> string -> result Z.
+  Variable load_plugin : string -> string -> result bool.
+  Notation run := (run parse_d parse_dt read_file load_plugin).
+  Notation run_seq := (run_seq parse_d parse_dt read_file load_plugin).
+  Notation after := (after parse_d parse_dt read_file load_plugin).
+  Notation after_from := (after_from parse_d parse_dt read_file load_plugin).
+  Notation step := (step parse_d parse_dt read_file).
+  Notation coherent := (coherent parse_d parse_dt).
+
+  (* A cached parse equals a fresh parse, in every process state reachable by running any
+     jobs (failing ones included), for every key of both caches.  (Since fix fc3a5e8 the clock
+     keys "now" / "today", and since bfa3786 Faker's relative specs such as "-30d", never reach the
+     datetime cache: C19_clock_keys_not_cached, with is_clock_key = now | today | is_relative_spec.) *)
+  Theorem C19_cache_coherent :
+    forall (h : list (env * recipe)) (k : key),
+      let p := after h in
+      snd (lru_call date_cache_size parse_d (p_dates p) k) = parse_d k /\
+      snd (lru_call date_cache_size parse_dt (p_dts p) k) = parse_dt k.
+  Proof. exact (cache_coherent parse_d parse_dt read_file load_plugin). Qed.
+
+  Theorem C19_clock_keys_not_cached :
+    forall e cx p s k, is_clock_key k = true -> fst (step e cx p s (ODatetime k)) = p.
+  Proof. exact (step_clock_untouched parse_d parse_dt read_file). Qed.
+
+  (* Noninterference, at full strength for the model: for the same inputs (recipe, continuation
+     file, stopping criterion, clock readings, application options) the outcome of a run is the
+     same in any two coherent process states (every reachable state is coherent:
+     C19_reachable_coherent) that have the same working directory, search path and HOME (every
+     run puts them back: C19_run_restores_ambient), provided
+       - the two states agree on the unique-id context counter, or the recipe draws no unique id:
+         the counter is the one piece of process state a run is MEANT to read (that is what keeps
+         unique ids distinct across runs, C19_uid_still_distinct);
+       - the application object is new for this run, or is in the same state in both: an
+         application that reuses its SnowfakeryApplication object hands rep_count / starting_id of
+         the previous run to the next one (C19_app_object_reused_refuted);
+       - the recipe names no local plugin module, or both processes imported the same ones
+         (Python's import cache).
+     Clock keys make the outcome depend on the clock input [e], not on the process; the
+     application's options dict and the continuation file are inputs too. *)
+  Theorem C19_noninterference :
+    forall p1 p2 e r,
+      coherent p1 -> coherent p2 -> ambient p1 = ambient p2 ->
+      (no_uid r = true \/ p_uid p1 = p_uid p2) ->
+      (e_new_app e = true \/ p_app p1 = p_app p2) ->
+      (no_plugins r = true \/ p_modules p1 = p_modules p2) ->
+      snd (run p1 e r) = snd (run p2 e r).
+  Proof. exact (noninterference parse_d parse_dt read_file load_plugin). Qed.
+
+  Theorem C19_reachable_coherent : forall h, coherent (after h).
+  Proof. exact (after_coherent parse_d parse_dt read_file load_plugin). Qed.
+
+  (* The outcome of a plain job (no unique id, an application object of its own, no local plugin)
+     is the same after any two histories, from whatever coherent state the process started in ... *)
+  Theorem C19_sequence_independent :
+    forall p0 h1 h2 e r,
+      coherent p0 -> plain_job e r ->
+      snd (run (after_from p0 h1) e r) = snd (run (after_from p0 h2) e r).
+  Proof. exact (sequence_independent parse_d parse_dt read_file load_plugin). Qed.
+
+  (* ... in particular it is what the job produces alone in a fresh process. *)
+  Theorem C19_same_as_fresh_process :
+    forall h e r, plain_job e r -> snd (run (after h) e r) = snd (run proc0 e r).
+  Proof.
+    intros h e r. exact (same_as_fresh_process parse_d parse_dt read_file load_plugin proc0 h e r
+                           (coherent_proc0 parse_d parse_dt)).
+  Qed.
+
+  (* What any run - failing or not - leaves behind in the process: coherent caches, a counter
+     that did not go down, the same working directory / search path / HOME, an import cache that
+     only grew. *)
+  Theorem C19_run_effects :
+    forall p e r,
+      let p' := fst (run p e r) in
+      (coherent p -> coherent p') /\ p_uid p <= p_uid p' /\ ambient p' = ambient p /\
+      (forall m, In m (p_modules p) -> In m (p_modules p')).
+  Proof. exact (run_effects parse_d parse_dt read_file load_plugin). Qed.
+
+  (* Every exit path restores.  The run may end normally, with a DataGenError or with any other
+     exception, at any operation, inside or outside a with-block: the statement quantifies over
+     all jobs, all file systems and all import systems and does not look at the outcome. *)
+  Theorem C19_run_restores_ambient : forall p e r, ambient (fst (run p e r)) = ambient p.
+  Proof. exact (run_restores_ambient parse_d parse_dt read_file load_plugin). Qed.
+
+  (* the with-block of the dataset plugin, as it is in the code (try/finally): the process is left
+     EXACTLY as it was, whatever opening the file did *)
+  Theorem C19_with_chdir_restores :
+    forall d p file, fst (with_chdir read_file true d p file) = p.
+  Proof. exact (with_chdir_restores read_file). Qed.
+
+  (* A failed run does not poison the next one, whether it ended with a DataGenError or with any
+     other exception (r2 a plain job; with unique ids only the contexts move on, by
+     C19_noninterference). *)
+  Theorem C19_failed_run_harmless :
+    forall p e1 r1 e2 r2,
+      coherent p ->
+      o_err (snd (run p e1 r1)) <> None ->
+      plain_job e2 r2 ->
+      snd (run (fst (run p e1 r1)) e2 r2) = snd (run p e2 r2).
+  Proof. exact (failed_run_harmless parse_d parse_dt read_file load_plugin). Qed.
+
+  (* No history of runs changes the outcome of the next plain job: the instance of
+     C19_restoring_runs_independent for the model ([gafter]: the state after a list of jobs). *)
+  Theorem C19_history_irrelevant :
+    forall p0 h e r,
+      coherent p0 -> plain_job e r ->
+      snd (run (gafter proc (env * recipe) outcome (fun p i => run p (fst i) (snd i)) p0 h) e r)
+      = snd (run p0 e r).
+  Proof. exact (history_irrelevant parse_d parse_dt read_file load_plugin). Qed.
+
+  (* Ids go on from the run's OWN continuation file and are dense per table - they start at 1 in a
+     fresh run - whatever process state the run starts in and whatever an earlier continued run
+     restored (the IdManager, start_ids included, belongs to the run). *)
+  Theorem C19_ids_continue :
+    forall p e r t,
+      let ids := ids_of t (o_obs (snd (run p e r))) in
+      ids = Zseq (cont_last t r + 1) (length ids).
+  Proof. exact (ids_continue parse_d parse_dt read_file load_plugin). Qed.
+
+  Theorem C19_ids_start_at_one :
+    forall p e r t,
+      r_cont r = None ->
+      let ids := ids_of t (o_obs (snd (run p e r))) in
+      ids = Zseq 1 (length ids).
+  Proof. exact (ids_start_at_one parse_d parse_dt read_file load_plugin). Qed.
+
+  (* target_number (n, t): a run that ends normally has made at least n rows of t counted from
+     its own continuation file, in every process state and for every application object. *)
+  Theorem C19_target_reached :
+    forall p e r t n,
+      r_crit r = CTable t n -> o_err (snd (run p e r)) = None ->
+      n <= Z.of_nat (length (ids_of t (o_obs (snd (run p e r))))).
+  Proof. exact (target_reached parse_d parse_dt read_file load_plugin). Qed.
+
+  (* The iteration loop of the model carries fuel (the criterion's number + 2); it is never what ends
+     a run: allowing any number of further iterations gives exactly the same run - final process
+     state, observations and error - for every job and every process state, provided the rep_count of
+     a reused application object is not negative (it starts at 0 and only goes up).  So no theorem
+     above is true because of a truncated loop, and OutOfFuel is never the model's answer for a
+     run that would end. *)
+  Theorem C19_fuel_is_enough :
+    forall extra p e r,
+      (e_new_app e = true \/ 0 <= a_reps (p_app p)) ->
+      run_with parse_d parse_dt read_file load_plugin (iter_fuel (r_crit r) + extra) p e r = run p e r.
+  Proof. exact (fuel_is_enough parse_d parse_dt read_file load_plugin). Qed.
+
+  (* Unique ids stay distinct across runs in one process: over any sequence of runs from any
+     process state no (context, index) pair is drawn twice, and all contexts are >= the counter
+     the sequence started with — the counter only grows, so later runs cannot repeat earlier ones. *)
+  Theorem C19_uid_still_distinct :
+    forall p (l : list (env * recipe)),
+      NoDup (all_uid_pairs (snd (run_seq p l))) /\
+      forall c i, In (c, i) (all_uid_pairs (snd (run_seq p l))) -> p_uid p <= c.
+  Proof. exact (uid_still_distinct parse_d parse_dt read_file load_plugin). Qed.
+
+  (* ... and through the value pipeline proved for C13: the numbers themselves are distinct.
+     Numeric generators only (unique_id, UniqueId.unique_id).  NOT covered, and false in the code as
+     it is: alpha codes — in small-id mode the default alpha template is `index` alone, the context
+     drawn from the counter is not part of the code, and every run produces the same codes
+     (finding K5 of C13; registered for this property as C19-K5-alpha-codes-repeat-across-runs). *)
+  Theorem C19_uid_values_distinct :
+    forall (mask : Z -> Z -> Z) (nbits : Z -> Z) (big : bool) (pid : list Z) p l vs,
+      map (fun ci => num_value mask nbits (default_numeric_tpl big) pid (fst ci) (snd ci) true)
+          (all_num_uid_pairs (snd (run_seq p l))) = map Ok vs ->
+      NoDup vs.
+  Proof. exact (uid_values_distinct parse_d parse_dt read_file load_plugin). Qed.
+End Statements.
+
+(* The abstract argument, for any state space and any run function: if runs of admissible jobs
+   cannot tell related states apart and EVERY run (admissible or not, whatever its exit path)
+   leaves a state related to the one it started in, then no history changes the outcome of the
+   next admissible job. *)
+Theorem C19_restoring_runs_independent :
+  forall (St In Out : Type) (grun : St -> In -> St * Out) (R : St -> St -> Prop) (admissible : In -> Prop),
+    (forall a b, R a b -> R b a) ->
+    (forall a b c, R a b -> R b c -> R a c) ->
+    (forall s1 s2 i, admissible i -> R s1 s2 -> snd (grun s1 i) = snd (grun s2 i)) ->
+    (forall s i, R s s -> R (fst (grun s i)) s) ->
+    forall s h i, R s s -> admissible i -> snd (grun (gafter St In Out grun s h) i) = snd (grun s i).
+Proof. exact restoring_runs_independent. Qed.
+
 Print Assumptions C19_cache_coherent.
-
-Theorem C19_clock_keys_not_cached :
-  forall (parse_d parse_dt : key -> option Z) e ver p s k,
-    is_clock_key k = true -> fst (step parse_d parse_dt e ver p s (ODatetime k)) = p.
-Proof. exact step_clock_untouched. Qed.
 Print Assumptions C19_clock_keys_not_cached.
-
-(* Noninterference, at full strength for the model of the repaired code: for the same inputs
-   (recipe, clock readings, application options) the outcome of a run is the same in any two
-   coherent process states (every reachable state is coherent: C19_reachable_coherent)
-     - for EVERY recipe, if the two states agree on the unique-id context counter;
-     - with no condition on the states at all, if the recipe draws no unique id.
-   The counter is the one piece of process state a run is MEANT to read (that is what keeps
-   unique ids distinct across runs, C19_uid_still_distinct).  Clock keys make the outcome
-   depend on the clock input [e], not on the process; the application's options dict is an
-   input too.  The earlier restrictions (no clock key, version_fixed) are gone with fixes
-   fc3a5e8 and d5304ed. *)
-Theorem C19_noninterference :
-  forall (parse_d parse_dt : key -> option Z) p1 p2 e r,
-    coherent parse_d parse_dt p1 -> coherent parse_d parse_dt p2 ->
-    (no_uid r = true \/ p_uid p1 = p_uid p2) ->
-    snd (run parse_d parse_dt p1 e r) = snd (run parse_d parse_dt p2 e r).
-Proof. exact noninterference. Qed.
 Print Assumptions C19_noninterference.
-
-Theorem C19_reachable_coherent :
-  forall (parse_d parse_dt : key -> option Z) h, coherent parse_d parse_dt (after parse_d parse_dt h).
-Proof. exact after_coherent. Qed.
 Print Assumptions C19_reachable_coherent.
-
-(* The outcome of a recipe that draws no unique id is the same after any two histories ... *)
-Theorem C19_sequence_independent :
-  forall (parse_d parse_dt : key -> option Z) h1 h2 e r,
-    no_uid r = true ->
-    snd (run parse_d parse_dt (after parse_d parse_dt h1) e r) =
-    snd (run parse_d parse_dt (after parse_d parse_dt h2) e r).
-Proof. exact sequence_independent. Qed.
 Print Assumptions C19_sequence_independent.
-
-(* ... in particular it is what the recipe produces alone in a fresh process. *)
-Theorem C19_same_as_fresh_process :
-  forall (parse_d parse_dt : key -> option Z) h e r,
-    no_uid r = true ->
-    snd (run parse_d parse_dt (after parse_d parse_dt h) e r) = snd (run parse_d parse_dt proc0 e r).
-Proof. exact same_as_fresh_process. Qed.
 Print Assumptions C19_same_as_fresh_process.
-
-(* What any run - failing or not - leaves behind in the process: coherent caches and a counter
-   that did not go down. *)
-Theorem C19_run_effects :
-  forall (parse_d parse_dt : key -> option Z) p e r,
-    let p' := fst (run parse_d parse_dt p e r) in
-    (coherent parse_d parse_dt p -> coherent parse_d parse_dt p') /\ p_uid p <= p_uid p'.
-Proof. exact run_effects. Qed.
 Print Assumptions C19_run_effects.
-
-(* A failed run does not poison the next one (r2 draws no unique id; with unique ids only the
-   contexts move on, by C19_noninterference). *)
-Theorem C19_failed_run_harmless :
-  forall (parse_d parse_dt : key -> option Z) p e1 r1 e2 r2,
-    coherent parse_d parse_dt p ->
-    o_err (snd (run parse_d parse_dt p e1 r1)) <> None ->
-    no_uid r2 = true ->
-    snd (run parse_d parse_dt (fst (run parse_d parse_dt p e1 r1)) e2 r2) =
-    snd (run parse_d parse_dt p e2 r2).
-Proof. exact failed_run_harmless. Qed.
+Print Assumptions C19_run_restores_ambient.
+Print Assumptions C19_with_chdir_restores.
 Print Assumptions C19_failed_run_harmless.
-
-(* Ids start at 1 and are dense per table, whatever process state the run starts in
-   (by construction: the IdManager belongs to the run). *)
-Theorem C19_ids_start_at_one :
-  forall (parse_d parse_dt : key -> option Z) p e r t,
-    let ids := ids_of t (o_obs (snd (run parse_d parse_dt p e r))) in
-    ids = Zseq 1 (length ids).
-Proof. exact ids_start_at_one. Qed.
+Print Assumptions C19_history_irrelevant.
+Print Assumptions C19_ids_continue.
 Print Assumptions C19_ids_start_at_one.
-
-(* Unique ids stay distinct across runs in one process: over any sequence of runs from any
-   process state no (context, index) pair is drawn twice, and all contexts are >= the counter
-   the sequence started with — the counter only grows, so later runs cannot repeat earlier ones. *)
-Theorem C19_uid_still_distinct :
-  forall (parse_d parse_dt : key -> option Z) p (l : list (env * recipe)),
-    NoDup (all_uid_pairs (snd (run_seq parse_d parse_dt p l))) /\
-    forall c i, In (c, i) (all_uid_pairs (snd (run_seq parse_d parse_dt p l))) -> p_uid p <= c.
-Proof. exact uid_still_distinct. Qed.
+Print Assumptions C19_target_reached.
+Print Assumptions C19_fuel_is_enough.
 Print Assumptions C19_uid_still_distinct.
-
-(* ... and through the value pipeline proved for C13: the numbers themselves are distinct.
-   Numeric generators only (unique_id, UniqueId.unique_id).  NOT covered, and false in the code as
-   it is: alpha codes — in small-id mode the default alpha template is `index` alone, the context
-   drawn from the counter is not part of the code, and every run produces the same codes
-   (finding K5 of C13; registered for this property as C19-K5-alpha-codes-repeat-across-runs). *)
-Theorem C19_uid_values_distinct :
-  forall (parse_d parse_dt : key -> option Z) (mask : Z -> Z -> Z) (nbits : Z -> Z)
-         (big : bool) (pid : list Z) p l vs,
-    map (fun ci => num_value mask nbits (default_numeric_tpl big) pid (fst ci) (snd ci) true)
-        (all_num_uid_pairs (snd (run_seq parse_d parse_dt p l))) = map Ok vs ->
-    NoDup vs.
-Proof. exact uid_values_distinct. Qed.
 Print Assumptions C19_uid_values_distinct.
+Print Assumptions C19_restoring_runs_independent.
+
+(* ---------------------------------------------------------------- examples *)
+
+Definition no_files (d f : string) : result Z := Err (Internal "FileNotFoundError").
+Definition no_plugin_files (d m : string) : result bool := Ok false.
+Definition none_parse (k : key) : option Z := None.
+Notation run0 := (run none_parse none_parse no_files no_plugin_files).
+Notation after0 := (after none_parse none_parse no_files no_plugin_files).
+Definition ex_env (n : Z) : env := mkEnv n 0 None true.
 
 (* Regression for the repaired finding C19-clock-cached (fix fc3a5e8; witness
    corpus/C19/clock_cached.json).  Before the fix parse_datetimespec cached the clock keys and the
    second run below returned BVal 1, the time of the first run.  Now `datetime: now` returns the
    clock reading of its own run, as in a fresh process. *)
 Example C19_regression_clock_not_cached :
-  let r := mkRecipe SExec None [ORow "A"; ODatetime "now"] in
-  let h := [(mkEnv 1 0 None, r)] in
-  snd (run (fun _ => None) (fun _ => None) (after (fun _ => None) (fun _ => None) h) (mkEnv 2 0 None) r)
-  = mkOut [BId "A" 1; BVal 2] None /\
-  snd (run (fun _ => None) (fun _ => None) proc0 (mkEnv 2 0 None) r) = mkOut [BId "A" 1; BVal 2] None.
+  let r := simple_recipe SExec None [ORow "A"; ODatetime "now"] in
+  let h := [(ex_env 1, r)] in
+  snd (run0 (after0 h) (ex_env 2) r) = mkOut [BId "A" 1; BVal 2] None /\
+  snd (run0 proc0 (ex_env 2) r) = mkOut [BId "A" 1; BVal 2] None.
 Proof. split; vm_compute; reflexivity. Qed.
 
 (* Regression for the repaired finding C19-plugin-options-mutated (fix d5304ed; witness
@@ -154,9 +264,8 @@ Proof. split; vm_compute; reflexivity. Qed.
    the application's options dict and the version-less recipe below ran in native-types mode
    (BVersion 3).  Now the dict is an input that no run changes: version 2 again. *)
 Example C19_regression_options_not_written :
-  let h := [(mkEnv 1 0 None, mkRecipe SExec (Some 3) [ORow "A"])] in
-  snd (run (fun _ => None) (fun _ => None) (after (fun _ => None) (fun _ => None) h) (mkEnv 2 0 None)
-           (mkRecipe SExec None [ORow "A"; OVersion]))
+  let h := [(ex_env 1, simple_recipe SExec (Some 3) [ORow "A"])] in
+  snd (run0 (after0 h) (ex_env 2) (simple_recipe SExec None [ORow "A"; OVersion]))
   = mkOut [BId "A" 1; BVersion 2] None.
 Proof. vm_compute. reflexivity. Qed.
 
@@ -164,20 +273,23 @@ Proof. vm_compute. reflexivity. Qed.
 
 Definition ex_parse (k : key) : option Z :=
   if String.eqb k "2020-01-05" then Some 7 else if String.eqb k "2021-02-03" then Some 8 else None.
+Notation runx := (run ex_parse ex_parse no_files no_plugin_files).
+Notation run_seqx := (run_seq ex_parse ex_parse no_files no_plugin_files).
+Notation afterx := (after ex_parse ex_parse no_files no_plugin_files).
 
 Definition ex_r1 : recipe :=
-  mkRecipe SExec None [ORow "A"; OUid SlotNum; ODate "2020-01-05"; OCounter "c" 5 1;
-                       ORow "A"; OUid SlotNum; ODate "2020-01-05"; OCounter "c" 5 1; OUid SlotAlpha].
+  simple_recipe SExec None
+    [ORow "A"; OUid SlotNum; ODate "2020-01-05"; OCounter "c" 5 1;
+     ORow "A"; OUid SlotNum; ODate "2020-01-05"; OCounter "c" 5 1; OUid SlotAlpha].
 Definition ex_fail : recipe :=
-  mkRecipe SExec None [ORow "B"; OUid SlotNum; ODate "garbage"; ORow "B"].
+  simple_recipe SExec None [ORow "B"; OUid SlotNum; ODate "garbage"; ORow "B"].
 Definition ex_r2 : recipe :=
-  mkRecipe SExec None [ORow "A"; ODate "2020-01-05"; OCounter "c" 5 1; ORow "P"; OLazy "P"].
-Definition ex_env (n : Z) : env := mkEnv n 0 None.
+  simple_recipe SExec None [ORow "A"; ODate "2020-01-05"; OCounter "c" 5 1; ORow "P"; OLazy "P"].
 
 (* three runs back to back: ids restart at 1, the counter restarts at 5, contexts go on
    (1, 2 in the first run, 3 in the failing one), the failing run delivers no row *)
 Example C19_ex_sequence :
-  snd (run_seq ex_parse ex_parse proc0 [(ex_env 1, ex_r1); (ex_env 2, ex_fail); (ex_env 3, ex_r2)]) =
+  snd (run_seqx proc0 [(ex_env 1, ex_r1); (ex_env 2, ex_fail); (ex_env 3, ex_r2)]) =
   [ mkOut [BId "A" 1; BUid SlotNum 1 1; BVal 7; BCount "c" 5;
            BId "A" 2; BUid SlotNum 1 2; BVal 7; BCount "c" 6; BUid SlotAlpha 2 1001] None;
     mkOut [BId "B" 1; BUid SlotNum 3 1] (Some (DGE ""));
@@ -187,25 +299,146 @@ Proof. vm_compute. reflexivity. Qed.
 (* the hypotheses of the theorems are satisfiable, and the conclusion is about a
    non-trivial outcome *)
 Example C19_ex_hypotheses :
-  no_uid ex_r2 = true /\
-  o_err (snd (run ex_parse ex_parse proc0 (ex_env 2) ex_fail)) <> None /\
-  snd (run ex_parse ex_parse (after ex_parse ex_parse [(ex_env 1, ex_r1); (ex_env 2, ex_fail)])
-           (ex_env 3) ex_r2)
+  plain_job (ex_env 3) ex_r2 /\
+  o_err (snd (runx proc0 (ex_env 2) ex_fail)) <> None /\
+  snd (runx (afterx [(ex_env 1, ex_r1); (ex_env 2, ex_fail)]) (ex_env 3) ex_r2)
   = mkOut [BId "A" 1; BVal 7; BCount "c" 5; BId "P" 1; BLazy] None.
 Proof.
-  split; [reflexivity|]. split; [vm_compute; discriminate|].
-  vm_compute. reflexivity.
+  split; [unfold plain_job; conjs; vm_compute; reflexivity|].
+  split; [vm_compute; discriminate|vm_compute; reflexivity].
 Qed.
 
 (* the process state after that history: counter at 4, one cached date, one miss for the key
-   that raised, context variable holding the last run's history *)
+   that raised, context variable holding the last run's history, working directory as at the start *)
 Example C19_ex_state :
-  let p := after ex_parse ex_parse [(ex_env 1, ex_r1); (ex_env 2, ex_fail); (ex_env 3, ex_r2)] in
+  let p := afterx [(ex_env 1, ex_r1); (ex_env 2, ex_fail); (ex_env 3, ex_r2)] in
   p_uid p = 4 /\ l_items (p_dates p) = [("2020-01-05"%string, 7)] /\ l_misses (p_dates p) = 2 /\
-  p_rowhist p = Some [("P"%string, 1); ("A"%string, 1)].
-Proof. vm_compute. repeat split; reflexivity. Qed.
+  p_rowhist p = Some [("P"%string, 1); ("A"%string, 1)] /\ ambient p = ambient proc0.
+Proof. conjs; vm_compute; reflexivity. Qed.
 
-(* lru eviction: with maxsize 2 the least recently used key is dropped *)
+(* ---- the iteration loop, continuation files and target_number ---- *)
+
+(* two rows of Person per iteration; the continuation file says Person 5, Visit 2 *)
+Definition ex_body : list op := [ORow "Person"; ORow "Person"; ORow "Visit"; OCounter "c" 10 1].
+Definition ex_job (crit : criterion) (cont : option (list (string * Z))) : recipe :=
+  mkRecipe SExec None ex_body crit cont ["Person"; "Visit"] None [].
+
+(* the loop runs until the target is reached: 3 Person rows need two iterations; counters live on
+   from one iteration to the next; a fresh run starts at 1 *)
+Example C19_ex_target_fresh :
+  snd (run0 proc0 (ex_env 1) (ex_job (CTable "Person" 3) None)) =
+  mkOut [BId "Person" 1; BId "Person" 2; BId "Visit" 1; BCount "c" 10;
+         BId "Person" 3; BId "Person" 4; BId "Visit" 2; BCount "c" 11] None.
+Proof. vm_compute. reflexivity. Qed.
+
+(* a continued run: ids go on from its continuation file, the target counts from there *)
+Example C19_ex_target_continued :
+  snd (run0 proc0 (ex_env 1) (ex_job (CTable "Person" 3) (Some [("Person", 5); ("Visit", 2)]))) =
+  mkOut [BId "Person" 6; BId "Person" 7; BId "Visit" 3; BCount "c" 10;
+         BId "Person" 8; BId "Person" 9; BId "Visit" 4; BCount "c" 11] None.
+Proof. vm_compute. reflexivity. Qed.
+
+(* The history of the missed seeded change r3_C19_1, in the model: recipe A continued (Person
+   1..5 in its file), then recipe B continued from a file that has no Person entry, with target
+   (3, Person).  B's start id comes from B's own file (none: 1), so B makes Person 1..4 - as it
+   does alone in a fresh process.  (With a start_ids dict shared by all IdManagers the target id
+   was 6 + 3 - 1 and B made Person 1..8.) *)
+Example C19_regression_start_ids_belong_to_the_run :
+  let a1 := mkRecipe SExec None [ORow "Person"; ORow "Person"; ORow "Person"; ORow "Person"; ORow "Person"]
+                     (CReps 1) (Some [("Person", 5)]) ["Person"] None [] in
+  let b1 := ex_job (CTable "Person" 3) (Some [("Company", 1); ("Visit", 1)]) in
+  snd (run0 (after0 [(ex_env 1, a1)]) (ex_env 2) b1) = snd (run0 proc0 (ex_env 2) b1) /\
+  snd (run0 proc0 (ex_env 2) b1) =
+  mkOut [BId "Person" 1; BId "Person" 2; BId "Visit" 2; BCount "c" 10;
+         BId "Person" 3; BId "Person" 4; BId "Visit" 3; BCount "c" 11] None.
+Proof. split; vm_compute; reflexivity. Qed.
+
+(* no progress towards the target: RuntimeError "At this rate we will never hit our target!";
+   an undeclared stop table: DataGenNameError before anything is executed *)
+Example C19_ex_no_progress :
+  snd (run0 proc0 (ex_env 1) (mkRecipe SExec None [ORow "Visit"] (CTable "Person" 3) None ["Person"; "Visit"] None []))
+  = mkOut [BId "Visit" 1] (Some (Internal "RuntimeError")) /\
+  run0 proc0 (ex_env 1) (mkRecipe SExec None [ORow "Visit"] (CTable "Nope" 1) None ["Visit"] None [])
+  = (proc0, mkOut [] (Some (DGE ""))).
+Proof. split; vm_compute; reflexivity. Qed.
+
+(* FINDING C19-app-object-reused (open; witness corpus/C19/app_object_reused.json).  An application
+   that passes the SAME SnowfakeryApplication object to two runs: rep_count and starting_id are
+   per-run counters kept on that object and never reset.  Second run of the same 2-iteration job:
+   one iteration instead of two; second run with target (2, Person): the spurious RuntimeError. *)
+Example C19_app_object_reused_refuted :
+  let reuse := mkEnv 2 0 None false in
+  let two := ex_job (CReps 2) None in
+  let tgt := ex_job (CTable "Person" 2) None in
+  length (o_obs (snd (run0 (after0 [(ex_env 1, two)]) reuse two))) = 4%nat /\
+  length (o_obs (snd (run0 proc0 reuse two))) = 8%nat /\
+  o_err (snd (run0 (after0 [(ex_env 1, tgt)]) reuse tgt)) = Some (Internal "RuntimeError") /\
+  o_err (snd (run0 proc0 reuse tgt)) = None /\
+  (* with an application object of its own the second run is what it is alone *)
+  snd (run0 (after0 [(ex_env 1, two)]) (ex_env 2) two) = snd (run0 proc0 (ex_env 2) two).
+Proof. conjs; vm_compute; reflexivity. Qed.
+
+(* ---- the with-blocks and their exit paths ---- *)
+
+Definition ex_files (d f : string) : result Z :=
+  if String.eqb d "work" && String.eqb f "data.csv" then Ok 1
+  else if String.eqb d "other" && String.eqb f "data.csv" then Ok 91
+  else if String.eqb f "dge.csv" then Err (DGE "")
+  else Err (Internal "FileNotFoundError").
+Definition ex_plugins (d m : string) : result bool :=
+  if String.eqb d "other/plugins" && String.eqb m "c19_plug" then Ok true
+  else if String.eqb m "c19_bad" then Err (Internal "ValueError") else Ok false.
+Notation runf := (run none_parse none_parse ex_files ex_plugins).
+Notation afterf := (after none_parse none_parse ex_files ex_plugins).
+Definition ds_job (dir : option string) (file : string) (plugins : list string) : recipe :=
+  mkRecipe SExec None [ORow "D"; ODataset "ds" file] (CReps 2) None ["D"] dir plugins.
+
+(* a relative dataset path: a stream recipe reads it from the working directory, a recipe FILE
+   from its own directory; the iterator is opened once (memoised), not once per iteration *)
+Example C19_ex_dataset_paths :
+  snd (runf proc0 (ex_env 1) (ds_job None "data.csv" [])) = mkOut [BId "D" 1; BVal 1; BId "D" 2] None /\
+  snd (runf proc0 (ex_env 1) (ds_job (Some "other") "data.csv" [])) = mkOut [BId "D" 1; BVal 91; BId "D" 2] None.
+Proof. split; vm_compute; reflexivity. Qed.
+
+(* the three exit paths of `with chdir(...)`: normal, DataGenError, another exception - the working
+   directory is "work" again each time, and the next stream job reads work/data.csv *)
+Example C19_ex_chdir_exit_paths :
+  map (fun f => (with_chdir ex_files true "other" proc0 f))
+      ["data.csv"; "dge.csv"; "missing.csv"]
+  = [(proc0, Ok 91); (proc0, Err (DGE "")); (proc0, Err (Internal "FileNotFoundError"))] /\
+  snd (runf (afterf [(ex_env 1, ds_job (Some "other") "missing.csv" [])]) (ex_env 2) (ds_job None "data.csv" []))
+  = mkOut [BId "D" 1; BVal 1; BId "D" 2] None.
+Proof. split; vm_compute; reflexivity. Qed.
+
+(* ... which is NOT so for the same manager without try/finally (the seeded change
+   C19_failed_run_leaves_cwd): only the normal exit puts the directory back *)
+Example C19_chdir_without_finally_refuted :
+  map (fun f => p_cwd (fst (with_chdir ex_files false "other" proc0 f))) ["data.csv"; "dge.csv"; "missing.csv"]
+  = ["work"; "other"; "other"].
+Proof. vm_compute. reflexivity. Qed.
+
+(* the three exit paths of `with plugin_path(...)`: plugin found, not found (DataGenImportError),
+   the module raises while it is imported; sys.path is back to [] each time.  Without the
+   restoring __exit__ (the seeded change C19_failed_run_leaves_plugin_dir_on_sys_path) a failing
+   lookup leaves the failed recipe's plugin directory on the search path. *)
+Example C19_ex_plugin_path_exit_paths :
+  map (fun r => let x := with_plugin_path ex_plugins true proc0 r in (p_path (fst x), snd x))
+      [ds_job (Some "other") "data.csv" ["c19_plug"]; ds_job None "data.csv" ["c19_plug"];
+       ds_job (Some "other") "data.csv" ["c19_bad"]]
+  = [([], Ok tt); ([], Err (DGE "")); ([], Err (Internal "ValueError"))] /\
+  p_path (fst (with_plugin_path ex_plugins false proc0 (ds_job (Some "other") "data.csv" ["nosuch"])))
+  = ["other/plugins"; "work/plugins"; "~/.snowfakery/plugins"].
+Proof. split; vm_compute; reflexivity. Qed.
+
+(* the accepted limit, stated: a local plugin found once stays importable (sys.modules) *)
+Example C19_ex_import_cache :
+  let found := ds_job (Some "other") "data.csv" ["c19_plug"] in
+  let stream := ds_job None "data.csv" ["c19_plug"] in
+  o_err (snd (runf proc0 (ex_env 1) stream)) = Some (DGE "") /\
+  o_err (snd (runf (afterf [(ex_env 1, found)]) (ex_env 2) stream)) = None /\
+  p_modules (afterf [(ex_env 1, found)]) = ["c19_plug"].
+Proof. conjs; vm_compute; reflexivity. Qed.
+
 (* the recogniser of Faker's relative syntax *)
 Example C19_ex_relative_specs :
   map is_relative_spec ["-30d"; "+1y"; "-1w+2h"; "+1y-2M+3w-4d+5h-6m+7s"; "+15m"; "+3M"]
@@ -216,13 +449,12 @@ Proof. split; vm_compute; reflexivity. Qed.
 
 (* a relative spec in a later run is read against that run's clock *)
 Example C19_regression_relative_spec_not_cached :
-  let r := mkRecipe SExec None [ORow "A"; ODatetime "-30d"; ODatetime "-30d"] in
-  snd (run (fun _ => None) (fun _ => None)
-           (after (fun _ => None) (fun _ => None) [(mkEnv 1 0 None, r)]) (mkEnv 2 0 None) r)
-  = mkOut [BId "A" 1; BVal 2; BVal 2] None /\
-  p_dts (after (fun _ => None) (fun _ => None) [(mkEnv 1 0 None, r)]) = lru_empty.
+  let r := simple_recipe SExec None [ORow "A"; ODatetime "-30d"; ODatetime "-30d"] in
+  snd (run0 (after0 [(ex_env 1, r)]) (ex_env 2) r) = mkOut [BId "A" 1; BVal 2; BVal 2] None /\
+  p_dts (after0 [(ex_env 1, r)]) = lru_empty.
 Proof. split; vm_compute; reflexivity. Qed.
 
+(* lru eviction: with maxsize 2 the least recently used key is dropped *)
 Example C19_ex_lru :
   let f := fun k : key => Some (Z.of_nat (String.length k)) in
   let c1 := fst (lru_call 2 f lru_empty "a") in
